@@ -225,6 +225,25 @@ class Generator:
     def integers(self, *a, **k):
         raise ModelGap("rng.integers")
 
+    @property
+    def bit_generator(self):
+        """the underlying bit generator: reading raw words from it advances the stream like any other draw"""
+        return _BitGenerator(self)
+
+
+class _BitGenerator:
+    def __init__(self, g):
+        self._g = g
+
+    def random_raw(self, size=None, output=True):
+        self._g._log("random_raw")
+        k = self._g._pick(4, "random_raw")
+        return (0x9E3779B97F4A7C15 * (k + 1)) % (1 << 64) if size is None else [((0x9E3779B97F4A7C15 * (k + 1 + i)) % (1 << 64)) for i in range(int(size))]
+
+    @property
+    def state(self):
+        return dict(bit_generator="model", token=self._g.token, count=self._g.count)
+
 
 class SeedChild:
     def __init__(self, seed, index):
